@@ -1,8 +1,10 @@
 (* C16 — the recovery log replays exactly the uncommitted events.
    This file contains only the property theorems.  Histories are arbitrary lists of
    Log / Commit / Reopen (with crashed Logs) / Recover (with arbitrary handler outcomes,
-   including a handler that kills the process); the only hypothesis is that the bucket
-   sequence has not reached 2^64. *)
+   including a handler that kills the process) / Inject (a foreign writer puts a corrupt or
+   foreign entry into the file).  Hypotheses: the bucket sequence has not reached 2^64, and the
+   foreign entries are inert (Forall op_inert: not a canonical event key, and outside /events/,
+   or with a key that does not parse, or with a value that does not decode). *)
 From Coq Require Import List NArith Sorted.
 From Verif Require Import Base.GoStr Base.GoStrLemmas Wal.Model Wal.Proofs Wal.OkSound.
 Import ListNotations.
@@ -11,36 +13,41 @@ Local Open Scope N_scope.
 (* Every recovery, at any point of any history, calls handlers exactly along the walk over the
    events that were logged and not removed (committed, or handled ok / not needed by an earlier
    recovery), in increasing id = logging order, each at most once, skipping types without
-   handler, all of them unless a handler kills the process (then that call is the last). *)
+   handler, all of them unless a handler kills the process (then that call is the last).
+   In particular no handler is ever called for a foreign or corrupt entry. *)
 Theorem C16_replay : forall regs ops tr st oc,
-  run (init regs) ops = (tr, st) -> seq st < two64N ->
+  run (init regs) ops = (tr, st) -> seq st < two64N -> Forall op_inert ops ->
   exists st' calls, step st (Recover oc) = (st', RRecovered calls) /\ replay_spec tr (reg st) oc calls.
 Proof. exact replay_theorem. Qed.
 Print Assumptions C16_replay.
 
 (* An event disappears in a recovery iff its handler succeeded or declared it unnecessary;
-   the file afterwards holds exactly the live events. *)
+   the file afterwards holds exactly the live events (and the foreign entries). *)
 Theorem C16_removed_iff : forall regs ops tr st oc st' calls,
-  run (init regs) ops = (tr, st) -> seq st < two64N ->
+  run (init regs) ops = (tr, st) -> seq st < two64N -> Forall op_inert ops ->
   step st (Recover oc) = (st', RRecovered calls) ->
-  kv st' = kv_of (live (tr ++ [(Recover oc, RRecovered calls)])) /\
+  (exists F, wfkv (kv st') (live (tr ++ [(Recover oc, RRecovered calls)])) F) /\
   forall e, In e (live tr) ->
     (~ In e (live (tr ++ [(Recover oc, RRecovered calls)])) <->
      exists o, In (e, o) calls /\ (o = OOk \/ o = ONotNeeded)).
 Proof. exact removed_iff. Qed.
 Print Assumptions C16_removed_iff.
 
-(* At every point the file holds exactly the logged-and-not-removed events, keys in id order. *)
+(* At every point the file is the key-ordered interleaving of exactly the logged-and-not-removed
+   events with the foreign entries F; F holds exactly the keys the foreign writer wrote: no
+   operation of the WAL ever deletes or overwrites one. *)
 Theorem C16_file_is_live : forall regs ops tr st,
-  run (init regs) ops = (tr, st) -> seq st < two64N ->
-  kv st = kv_of (live tr) /\ ids_ok (live tr) (seq st).
+  run (init regs) ops = (tr, st) -> seq st < two64N -> Forall op_inert ops ->
+  exists F, wfkv (kv st) (live tr) F /\ ids_ok (live tr) (seq st) /\
+            (forall x, In x F -> In (fst x) (injected tr)) /\
+            (forall k, In k (injected tr) -> exists ov, In (k, ov) F).
 Proof. exact state_is_live. Qed.
 Print Assumptions C16_file_is_live.
 
 (* Ids handed out by Log strictly increase over the whole history, across close/reopen and
    crashed Logs: never reused; the first is >= 1. *)
 Theorem C16_ids_fresh : forall regs ops tr st,
-  run (init regs) ops = (tr, st) -> seq st < two64N ->
+  run (init regs) ops = (tr, st) -> seq st < two64N -> Forall op_inert ops ->
   StronglySorted N.lt (logged_ids tr) /\ Forall (fun id => 1 <= id /\ id <= seq st) (logged_ids tr).
 Proof. exact ids_fresh. Qed.
 Print Assumptions C16_ids_fresh.
@@ -60,14 +67,29 @@ Theorem C16_key_shape : forall id, event_key id = event_prefix ++ hex16 id.
 Proof. exact event_key_shape. Qed.
 Print Assumptions C16_key_shape.
 
+(* Scan: on the key-sorted bucket, Seek(prefix) + "while HasPrefix" visits exactly the prefixed keys *)
+Theorem C16_scan_is_filter : forall p s, ksorted s -> kv_scan p s = filter (prefixed p) s.
+Proof. exact scan_filter. Qed.
+Print Assumptions C16_scan_is_filter.
+
+(* the inertness hypothesis is needed: a foreign entry with a parsable key under /events/ and a
+   decodable value IS handed to its handler although nothing logged it (the WAL trusts its file) *)
+Theorem C16_wellformed_foreign_event_is_replayed :
+  exists ops oc calls, ~ op_inert (nth 0 ops (Commit 0)) /\
+    snd (step (snd (run (init [0]) ops)) (Recover oc)) = RRecovered calls /\
+    logged (fst (run (init [0]) ops)) = [] /\ calls <> [].
+Proof. exact wellformed_foreign_event_is_replayed. Qed.
+Print Assumptions C16_wellformed_foreign_event_is_replayed.
+
 (* The boolean check [Model.ok] that the harness evaluates on the IMPLEMENTATION's observations
-   accepts every behaviour of the model: for every history with distinct event items, the
-   observations the model produces (obs_trace: Log result kinds, Commit results, file snapshots
-   with keys and ids, handler calls with the methods reached) pass the check.  Together with
-   C16_replay / C16_removed_iff / C16_ids_fresh the check therefore accepts exactly the behaviours
-   the theorems describe, and a run with V = [] and M = [] is a run the theorems cover. *)
+   accepts every behaviour of the model: for every history with distinct event items and inert
+   foreign writes, the observations the model produces (obs_trace: Log result kinds, Commit
+   results, file snapshots with keys, ids and foreign entries, handler calls with the methods
+   reached) pass the check.  Together with C16_replay / C16_removed_iff / C16_ids_fresh the check
+   accepts the behaviours the theorems describe, and a run with V = [] and M = [] is a run the
+   theorems cover. *)
 Theorem C16_ok_sound : forall regs ops tr st,
-  run (init regs) ops = (tr, st) -> seq st < two64N -> NoDup (log_items ops) ->
+  run (init regs) ops = (tr, st) -> seq st < two64N -> Forall op_inert ops -> NoDup (log_items ops) ->
   ok (mkCase regs ops (obs_trace tr)) = true.
 Proof. exact ok_sound. Qed.
 Print Assumptions C16_ok_sound.
